@@ -1806,6 +1806,11 @@ func (p *Parser) paramExpParameter(pe *ParamExp) *ParamExp {
 					// Zsh allows omitting the parameter name, e.g. ${:-word}.
 					return pe
 				}
+				if p.r == runeEOF {
+					// The name may be completed by more input,
+					// such as following an escaped newline.
+					p.tok = _EOF
+				}
 				p.posErr(pos, "invalid parameter name")
 			}
 		}
@@ -1833,6 +1838,11 @@ func (p *Parser) paramExpExp() *Expansion {
 			p.checkLang(p.pos, LangMirBSDKorn, "this expansion operator")
 		case "Q":
 		default:
+			if p.val == "" && p.r == runeEOF {
+				// The operator may follow with more input,
+				// such as following an escaped newline.
+				p.tok = _EOF
+			}
 			p.curErr("invalid @ expansion operator %#q", p.val)
 		}
 	}
